@@ -37,11 +37,20 @@ func ResponseWriterImpls(p *Prog) []*types.Named {
 			if _, isStruct := named.Underlying().(*types.Struct); !isStruct {
 				continue
 			}
+			// full method set (declared and promoted through embedding): the type can stand in for an http.ResponseWriter
 			have := map[string]bool{}
-			for i := 0; i < named.NumMethods(); i++ {
-				have[named.Method(i).Name()] = true
+			ms := types.NewMethodSet(types.NewPointer(named))
+			for i := 0; i < ms.Len(); i++ {
+				have[ms.At(i).Obj().Name()] = true
 			}
-			if have["WriteHeader"] && have["Write"] && have["Header"] {
+			declared := 0
+			for i := 0; i < named.NumMethods(); i++ {
+				switch named.Method(i).Name() {
+				case "Write", "WriteHeader", "Header":
+					declared++
+				}
+			}
+			if have["WriteHeader"] && have["Write"] && have["Header"] && declared > 0 {
 				out = append(out, named)
 			}
 		}
